@@ -704,9 +704,13 @@ func runC19(r *Run) {
 		r.Count("tree:" + out)
 		c19Correspond(r, kind, text, out, val, cs)
 	}
+	r.Enter("transact")
 	c19Transact(r)
+	r.Enter("raw-rpc")
 	c19Raw(r)
+	r.Enter("raw-monitor")
 	c19RawMonitor(r)
+	r.Enter("notify")
 	c19Notify(r)
 }
 
